@@ -334,7 +334,7 @@ class _PdShim:
         if isinstance(x, SymCivil):
             if str(tz) != 'UTC' or a or k:
                 raise Unmodelled('Timestamp of a symbolic civil date with tz=%r' % (tz,))
-            t = SymTime(z3.ToReal(x.day) * 86400 + x.secs)
+            t = SymTime(z3.ToReal(x.day) * 86400 + x.secs, z3.RealVal(0))
             t_day, t_secs = x.day, x.secs
             c = ctx()
             c.assume(core.DAYF(t.t) == t_day)
